@@ -183,12 +183,9 @@ inductive CmpSegOut
   | debugAssert
 deriving DecidableEq, Repr, Inhabited
 
-/-- `compare_segments(se1_l, se2_l)`.  `dbg`: debug assertions compiled in. -/
-def compareSegView (ar : Arith) (dbg : Bool) (s1 s2 : SegView) : CmpSegOut :=
-  if dbg && (!s1.l.left || !s2.l.left || s1.r.isNone || s2.r.isNone) then .debugAssert else
-  if s1.id = s2.id then .ord .eq else
-  let before := cmpView s1.l s2.l == .gt
-  let (old, new, lessIf') := if before then (s1, s2, lessIf) else (s2, s1, lessIfInv)
+/-- the body of `compare_segments` after the two events have been put in temporal order (`old` is
+    processed first); `lessIf'` is `less_if` or `less_if_inversed` accordingly -/
+def compareSegCore (ar : Arith) (dbg : Bool) (lessIf' : Bool → Ordering) (old new : SegView) : CmpSegOut :=
   match old.r, new.r with
   | some oldR, some newR =>
     let saL := orient old.l.point oldR.point new.l.point
@@ -211,5 +208,12 @@ def compareSegView (ar : Arith) (dbg : Bool) (s1 s2 : SegView) : CmpSegOut :=
         | .nonfinite => .nonfinite
     else collinear
   | _, _ => if dbg then .debugAssert else .ord (lessIf' true)
+
+/-- `compare_segments(se1_l, se2_l)`.  `dbg`: debug assertions compiled in. -/
+def compareSegView (ar : Arith) (dbg : Bool) (s1 s2 : SegView) : CmpSegOut :=
+  if dbg && (!s1.l.left || !s2.l.left || s1.r.isNone || s2.r.isNone) then .debugAssert else
+  if s1.id = s2.id then .ord .eq else
+  if cmpView s1.l s2.l == .gt then compareSegCore ar dbg lessIf s1 s2
+  else compareSegCore ar dbg lessIfInv s2 s1
 
 end Gbo
